@@ -73,10 +73,28 @@ class SymComp:
                                max_paths=max_paths, extra=self.extra)
 
     def sym1(self, inputs, assumptions=()):
+        """outputs as one expression per entry; when the code forks on the data, the paths (which partition the admissible
+        inputs) are merged into nested if-then-else terms over the path conditions, so callers stay path-agnostic"""
+        from .sym import band, ite
+
         paths = self.sym(inputs, assumptions)
-        if len(paths) != 1:
-            raise RuntimeError("%s: expected a single path, got %d" % (self.cls, len(paths)))
-        return paths[0].result["outputs"]
+        if len(paths) == 1:
+            return paths[0].result["outputs"]
+        if not paths:
+            raise RuntimeError("%s: no feasible path" % self.cls)
+        self.merged_paths = getattr(self, "merged_paths", 0) + len(paths)
+        out = {}
+        for n in paths[0].result["outputs"]:
+            acc = np.asarray(paths[-1].result["outputs"][n], dtype=object)
+            for p in reversed(paths[:-1]):
+                c = band(*p.conds)
+                v = np.asarray(p.result["outputs"][n], dtype=object)
+                merged = np.empty(acc.shape, dtype=object)
+                for idx in (np.ndindex(*acc.shape) if acc.shape else [()]):
+                    merged[idx] = ite(c, S(v[idx]), S(acc[idx]))
+                acc = merged
+            out[n] = acc
+        return out
 
     def real(self, vals):
         """Fresh real problem (real numpy, real OpenMDAO) at numeric inputs -> outputs dict."""
@@ -201,6 +219,7 @@ def run_obligations(rep, group, obs, timeout, replay=None, family=None, lw=None,
             if o.cond is None:
                 o.assume = list(o.assume) + lem
     oblig.discharge(obs, lw=lw, timeout=timeout, levels=levels, cut_threshold=cut_threshold)
+    concolic_pass(rep, group, obs, timeout, nominal=nominal, fixed=fixed, box=box)
     vacuity_guard(rep, group, obs, timeout)
     rep.add_obs(group, obs)
     s = oblig.summarize(obs)
@@ -235,6 +254,48 @@ def run_obligations(rep, group, obs, timeout, replay=None, family=None, lw=None,
     rep.log("%-52s obl=%d nontriv=%d disch=%d cand=%d inconc=%d  %.1fs" % (
         group, s["obligations"], s["nontrivial"], s["discharged"], s["candidate"], s["inconclusive"], time.time() - t0))
     return s
+
+
+def concolic_pass(rep, group, obs, timeout, nominal=None, fixed=None, box=(0.5, 1.5), free=2, limit=16):
+    """Bug-finding fallback for obligations the solver left undecided over the full domain: the same query restricted to
+    a plane through a nominal point (all variables but `free` of them pinned to nominal values).  `sat` there is a
+    genuine counter-model of the full query (a candidate, replayed as usual); `unsat` there proves nothing and the
+    obligation stays inconclusive.  Never turns anything into `discharged`."""
+    from fractions import Fraction
+
+    from .sym import const, eq, var
+
+    inc = [o for o in obs if o.verdict == "inconclusive" and not o.trivial][:limit]
+    if not inc:
+        return
+    rng = np.random.default_rng(99)
+    jobs = []
+    for o in inc:
+        roots = o.roots() + [s for a in o.assume for s in bool_syms(a)]
+        names = sorted(v.args[0] for v in variables(roots) if v.args[0] not in ("PI", "LN10", "LN2"))
+        if not names:
+            continue
+        for t in range(2):
+            env = FillEnv({k: v + (0.0 if t == 0 else 0.05 * (rng.random() - 0.5)) for k, v in (nominal or {}).items()})
+            for k in names:
+                if k not in env:
+                    env[k] = box[0] + (box[1] - box[0]) * rng.random()
+            env.update(fixed or {})
+            keep = set(rng.choice(names, size=min(free, len(names)), replace=False).tolist())
+            pins = [eq(var(k), const(Fraction(float(env[k])).limit_denominator(10**6))) for k in names if k not in keep]
+            ob2 = oblig.Ob(o.id + " @plane%d" % t, lhs=o.lhs, rhs=o.rhs, cond=o.cond, assume=list(o.assume) + pins, meta={})
+            jobs.append((o, ob2))
+    if not jobs:
+        return
+    oblig.discharge([j[1] for j in jobs], timeout=min(timeout, 10.0), levels=(2,), cut_threshold=0, keep_text=0)
+    hits = 0
+    for o, ob2 in jobs:
+        if ob2.verdict == "candidate" and o.verdict == "inconclusive":
+            o.verdict, o.level, o.model = "candidate", "concolic/2", ob2.model
+            o.detail = "sat on a plane through a nominal point"
+            hits += 1
+    if hits:
+        rep.extra.setdefault("concolic_candidates", []).append({"group": group, "count": hits})
 
 
 def vacuity_guard(rep, group, obs, timeout):
